@@ -44,9 +44,22 @@ def run_scenarios(scns, tag, timeout=30):
         s = scns[i]
         wd = os.path.join(base, str(i))
         os.makedirs(wd)
+        if s.get("open_wd"):
+            # a child that changes its user id must still be able to report into the work directory
+            os.chmod(base, 0o755)
+            os.chmod(wd, 0o777)
+        for d in s.get("mkdirs", []):
+            os.makedirs(os.path.join(wd, d), exist_ok=True)
         for name, data in s.get("files", {}).items():
             with open(os.path.join(wd, name), "wb") as f:
                 f.write(data)
+        for name, target in s.get("symlinks", {}).items():
+            os.symlink(target, os.path.join(wd, name))
+        for name, mode in s.get("modes", {}).items():
+            os.chmod(os.path.join(wd, name), mode)
+        if "specfn" in s:
+            s["spec"] = s["specfn"](wd)
+            s["wd"] = wd
         spec = [l.replace("$WD", wd) for l in s["spec"]]
         with open(os.path.join(wd, "s.txt"), "w") as f:
             f.write("\n".join(spec) + "\n")
